@@ -101,9 +101,14 @@ const (
 	// T-delta, parent T). Two uploads, one transition; version numbers follow
 	// commit order and timestamps ascend with them. Pre-commit regime only.
 	OpInterloperTouchEdit
+	// OpBlink: child X is deleted and created again inside ONE upload (one changeset,
+	// two versions: an invisible one and a visible one). A fault if the visible parent
+	// references X: a deleted version between parent versions. Commit-time regime,
+	// spaces with Blink set.
+	OpBlink
 )
 
-var OpNames = []string{"touch", "touch2", "edit", "touch+edit", "delete+edit", "delete", "parent-delete", "interloper+touch+edit"}
+var OpNames = []string{"touch", "touch2", "edit", "touch+edit", "delete+edit", "delete", "parent-delete", "interloper+touch+edit", "delete+undelete-in-one-upload"}
 
 // Op is one transition. Gap indexes the regime's gap alphabet.
 type Op struct {
@@ -121,7 +126,7 @@ func (o Op) Code() uint64 {
 func (o Op) String(f *Family) string {
 	s := OpNames[o.Kind]
 	switch o.Kind {
-	case OpTouch, OpTouch2, OpDelete:
+	case OpTouch, OpTouch2, OpDelete, OpBlink:
 		s += "(" + f.Names[o.X] + ")"
 	case OpEdit:
 		s += "(" + f.ListName(o.L) + ")"
@@ -148,6 +153,7 @@ type Space struct {
 	Skews  []int           // multiples of Delta tried for same-upload children (commit regime: {0})
 	Depth  int
 	Touch2 bool // include several-versions-in-one-commit transitions
+	Blink  bool // include OpBlink (commit-time regime)
 
 	// Interlopers includes the OpInterloperTouchEdit transitions (pre-commit
 	// regime). Independently of it, a gap g with 0 < g < Delta in Gaps is a
@@ -186,6 +192,7 @@ type SpaceID struct {
 	FirstCS   int64 `json:"first_changeset,omitempty"`
 	LocMode   int   `json:"loc_mode,omitempty"`
 	RevWays   bool  `json:"reverse_ways,omitempty"`
+	Blink     bool  `json:"blink,omitempty"`
 }
 
 // ID returns the serialisable identity of the space.
@@ -198,6 +205,7 @@ func (s *Space) ID() SpaceID {
 		id.StartUnix = s.Start.Unix()
 	}
 	id.FirstCS, id.LocMode, id.RevWays = int64(s.FirstChangeset), s.LocMode, s.ReverseWays
+	id.Blink = s.Blink
 	return id
 }
 
@@ -212,6 +220,7 @@ func SpaceFromID(id SpaceID) *Space {
 		s.Start = time.Unix(id.StartUnix, 0).UTC()
 	}
 	s.FirstChangeset, s.LocMode, s.ReverseWays = osm.ChangesetID(id.FirstCS), id.LocMode, id.RevWays
+	s.Blink = id.Blink
 	return s
 }
 
@@ -313,6 +322,8 @@ func (s *Space) Uploads(o Op) []Upload {
 		u.Changes = []Change{{ID: f.Children[o.X]}}
 	case OpTouch2:
 		u.Changes = []Change{{ID: f.Children[o.X]}, {ID: f.Children[o.X]}}
+	case OpBlink:
+		u.Changes = []Change{{ID: f.Children[o.X], Delete: true}, {ID: f.Children[o.X]}}
 	case OpEdit:
 		u.Changes = []Change{{ID: f.Parent, SetRefs: true, Refs: f.Refs(o.L)}}
 	case OpTouchEdit:
@@ -440,6 +451,13 @@ func (s *Space) Next(st Status, o Op) (Status, bool) {
 			return st, false
 		}
 		n.pvis = false
+	case OpBlink:
+		if !s.Blink || s.Regime != CommitTime || !st.vis[o.X] {
+			return st, false
+		}
+		if st.pvis && f.InList(st.list, o.X) {
+			n.faults++
+		}
 	}
 	single := o.Kind == OpTouch || o.Kind == OpEdit || o.Kind == OpDelete || o.Kind == OpParentDelete
 	parent := o.Kind == OpEdit || o.Kind == OpTouchEdit || o.Kind == OpDeleteEdit || o.Kind == OpParentDelete || o.Kind == OpInterloperTouchEdit
@@ -477,6 +495,9 @@ func (s *Space) Ops() []Op {
 				out = append(out, Op{Kind: OpTouch2, X: x, Gap: g})
 			}
 			out = append(out, Op{Kind: OpDelete, X: x, Gap: g})
+			if s.Blink {
+				out = append(out, Op{Kind: OpBlink, X: x, Gap: g})
+			}
 		}
 		for l := range f.Menu {
 			out = append(out, Op{Kind: OpEdit, L: l, Gap: g})
